@@ -74,10 +74,11 @@ Qed.
 (* ---------- the relation with the contract state made explicit ---------- *)
 
 Section Compact.
-Context {A : adapter} {m : dcmode} (S : sim A m) (Hplain : plain_ok S) (Hstamped : stamped_if_version S) (prefix : bytes).
+Context (VP : bytes -> Prop) (HVP : forall v, v <> [] -> VP v).
+Context {A : adapter} {m : dcmode} (S : sim A m) (Hplain : plain_ok VP S) (Hstamped : stamped_if_version S) (prefix : bytes).
 
 Definition RelC (s : a_state A) (c : cstore) (r : store) : Prop :=
-  sim_R A m S s c /\ st c = r /\ sorted r /\ sorted (stamps c) /\ no_empty_vals r.
+  sim_R A m S s c /\ st c = r /\ sorted r /\ sorted (stamps c).
 
 Lemma relc_rel s c r : RelC s c r -> Rel S s r.
 Proof. intros H. exists c. exact H. Qed.
@@ -86,14 +87,13 @@ Proof. intros H. exists c. exact H. Qed.
 Lemma relc_del s c r k : RelC s c r ->
   snd (a_del A s k) = ROk /\ RelC (fst (a_del A s k)) (removed c k) (Store.remove r k).
 Proof.
-  intros (HR & <- & Hs & Hz & Hne). rewrite (sim_del A m S s k). cbn [fst snd].
+  intros (HR & <- & Hs & Hz). rewrite (sim_del A m S s k). cbn [fst snd].
   destruct (sim_batch A m S s c [Del k] HR (okb_del A m S k)) as [Hp Hrel]. rewrite batch_eval_del in *.
   cbn [batch_proj_ok] in Hp. apply andb_true_iff in Hp as [Hc _].
   destruct (snd (fst (a_batch A s [Del k]))); try discriminate. split; [reflexivity|].
   repeat split; cbn [removed st stamps]; try assumption.
   - apply remove_sorted; exact Hs.
   - apply remove_sorted; exact Hz.
-  - apply remove_no_empty; exact Hne.
 Qed.
 
 (* KvStorage.DelCurrent of a snapshot record that is unchanged or gone *)
@@ -103,7 +103,7 @@ Lemma relc_delcur s c r i : RelC s c r -> item_ok A m S i -> fresh_or_missing m 
              snd (fst (a_delcur A s i)) = snd (fst (r_batch r [item_bop i])) /\
              (snd (fst (a_delcur A s i)) = ROk \/ snd (fst (a_delcur A s i)) = RCond).
 Proof.
-  intros (HR & <- & Hs & Hz & Hne) Hok Hfm. rewrite (sim_delcur A m S s i).
+  intros (HR & <- & Hs & Hz) Hok Hfm. rewrite (sim_delcur A m S s i).
   destruct (sim_batch A m S s c [item_bop i] HR (okb_delcur A m S i Hok)) as [Hp Hrel].
   unfold r_batch. destruct Hfm as [Hmiss|Hfr].
   - rewrite (batch_eval_delcur_missing m c i Hmiss) in *.
@@ -122,7 +122,6 @@ Proof.
     repeat split; cbn [removed st stamps]; try assumption.
     + apply remove_sorted; exact Hs.
     + apply remove_sorted; exact Hz.
-    + apply remove_no_empty; exact Hne.
 Qed.
 
 (* ---------- the worker ---------- *)
@@ -251,7 +250,7 @@ Lemma snapshot_items s c r a b : RelC s c r ->
   a_iter A s a b 0 = citems m c a b /\ all_fom c (citems m c a b) /\ Forall (item_ok A m S) (citems m c a b) /\
   map item_kv (citems m c a b) = map item_kv (a_iter radapter r a b 0).
 Proof.
-  intros (HR & <- & Hs & Hz & Hne). destruct (sim_iter A m S s c a b 0 HR) as [n [Hn Hle]].
+  intros (HR & <- & Hs & Hz). destruct (sim_iter A m S s c a b 0 HR) as [n [Hn Hle]].
   unfold min_count in Hle. cbn [N.eqb] in Hle. rewrite firstn_all2 in Hn by exact Hle.
   split; [exact Hn|]. split; [|split].
   - apply Forall_forall. intros i Hi. right. unfold citems in Hi. apply in_map_iff in Hi as [[k v] [<- Hkv]].
@@ -293,18 +292,18 @@ Lemma rel_set_compact_record s r rev : Rel S s r ->
                      set_compact_record radapter prefix r rev = (r', e, fl) /\ Rel S s' r'.
 Proof.
   intros HR. unfold set_compact_record. rewrite (rel_get S s r _ HR). cbn [a_get radapter]. unfold get_result.
-  assert (Hp1 : Forall bop_plain [PutIfNotExist (compact_key prefix) (be64 rev) 0]).
-  { repeat constructor. cbn [bop_plain]. apply be64_nonempty. }
+  assert (Hp1 : Forall (bop_plain VP) [PutIfNotExist (compact_key prefix) (be64 rev) 0]).
+  { repeat constructor. cbn [bop_plain]. apply HVP, be64_nonempty. }
   destruct (get r (compact_key prefix)) as [[|v0 vt]|].
-  - destruct (rel_batch2 S Hplain s r _ HR Hp1) as (s1 & cl & cf & r1 & E1 & E1' & HR1 & _).
+  - destruct (rel_batch2 VP S Hplain s r _ HR Hp1) as (s1 & cl & cf & r1 & E1 & E1' & HR1 & _).
     cbn [a_batch radapter]. rewrite E1, E1'. do 4 eexists. split; [reflexivity|]. split; [reflexivity|exact HR1].
   - destruct (uint64_of (v0 :: vt)) as [cr|]; [|do 4 eexists; split; [reflexivity|]; split; [reflexivity|exact HR]].
     destruct (rev <? cr); [do 4 eexists; split; [reflexivity|]; split; [reflexivity|exact HR]|].
-    assert (Hp2 : Forall bop_plain [CAS (compact_key prefix) (be64 rev) (v0 :: vt) 0]).
-    { repeat constructor. cbn [bop_plain]. apply be64_nonempty. }
-    destruct (rel_batch2 S Hplain s r _ HR Hp2) as (s1 & cl & cf & r1 & E1 & E1' & HR1 & _).
+    assert (Hp2 : Forall (bop_plain VP) [CAS (compact_key prefix) (be64 rev) (v0 :: vt) 0]).
+    { repeat constructor. cbn [bop_plain]. apply HVP, be64_nonempty. }
+    destruct (rel_batch2 VP S Hplain s r _ HR Hp2) as (s1 & cl & cf & r1 & E1 & E1' & HR1 & _).
     cbn [a_batch radapter]. rewrite E1, E1'. do 4 eexists. split; [reflexivity|]. split; [reflexivity|exact HR1].
-  - destruct (rel_batch2 S Hplain s r _ HR Hp1) as (s1 & cl & cf & r1 & E1 & E1' & HR1 & _).
+  - destruct (rel_batch2 VP S Hplain s r _ HR Hp1) as (s1 & cl & cf & r1 & E1 & E1' & HR1 & _).
     cbn [a_batch radapter]. rewrite E1, E1'. do 4 eexists. split; [reflexivity|]. split; [reflexivity|exact HR1].
 Qed.
 
@@ -313,9 +312,9 @@ Lemma rel_check_race_compact s r rev : Rel S s r ->
                   check_compact_race radapter prefix r rev true = (r', e) /\ Rel S s' r'.
 Proof.
   intros HR. unfold check_compact_race. rewrite (rel_get S s r _ HR). cbn [a_get radapter]. unfold get_result.
-  assert (Hp : Forall bop_plain [Put (compact_key prefix) (be64 rev) 0]).
-  { repeat constructor. cbn [bop_plain]. apply be64_nonempty. }
-  destruct (rel_batch2 S Hplain s r _ HR Hp) as (s1 & cl & cf & r1 & E1 & E1' & HR1 & _).
+  assert (Hp : Forall (bop_plain VP) [Put (compact_key prefix) (be64 rev) 0]).
+  { repeat constructor. cbn [bop_plain]. apply HVP, be64_nonempty. }
+  destruct (rel_batch2 VP S Hplain s r _ HR Hp) as (s1 & cl & cf & r1 & E1 & E1' & HR1 & _).
   cbn [a_batch radapter].
   destruct (get r (compact_key prefix)) as [v|].
   - destruct (Nat.eqb (length v) 8 && (rev <? from_be v)).
@@ -379,7 +378,7 @@ Qed.
 
 Definition hist_ok (q : req) : Prop :=
   match q with
-  | QCreate _ v | QUpdate _ v _ => v <> []
+  | QCreate _ v | QUpdate _ v _ => VP v
   | _ => True
   end.
 
@@ -387,11 +386,11 @@ Lemma rel_q_step_all st rt q : RelB S st rt -> hist_ok q ->
   exists st' rt' p ev, q_step A prefix st q = (st', p, ev) /\ q_step radapter prefix rt q = (rt', p, ev) /\ RelB S st' rt'.
 Proof.
   intros HB Hq. destruct q as [k v|k v rev|k rev|k rev|a b rev limit|rev|a b|a b rev].
-  - apply (rel_q_step S Hplain prefix st rt (QCreate k v) HB Hq).
-  - apply (rel_q_step S Hplain prefix st rt (QUpdate k v rev) HB Hq).
-  - apply (rel_q_step S Hplain prefix st rt (QDelete k rev) HB I).
-  - apply (rel_q_step S Hplain prefix st rt (QGet k rev) HB I).
-  - apply (rel_q_step S Hplain prefix st rt (QList a b rev limit) HB I).
+  - apply (rel_q_step VP HVP S Hplain prefix st rt (QCreate k v) HB Hq).
+  - apply (rel_q_step VP HVP S Hplain prefix st rt (QUpdate k v rev) HB Hq).
+  - apply (rel_q_step VP HVP S Hplain prefix st rt (QDelete k rev) HB I).
+  - apply (rel_q_step VP HVP S Hplain prefix st rt (QGet k rev) HB I).
+  - apply (rel_q_step VP HVP S Hplain prefix st rt (QList a b rev limit) HB I).
   - cbn [q_step]. destruct (rel_q_compact st rt rev HB) as (st' & rt' & p & E1 & E2 & HB').
     rewrite E1, E2. do 4 eexists. split; [reflexivity|]. split; [reflexivity|exact HB'].
   - cbn [q_step]. rewrite (rel_q_count st rt a b HB). do 4 eexists. split; [reflexivity|]. split; [reflexivity|exact HB].
@@ -422,11 +421,12 @@ Qed.
 End Compact.
 
 (* any two adapters that refine the contract — whichever reading of DelCurrent each implements — give the same
-   transcript and leave the same raw contents, on every sequential history that writes no empty value *)
-Theorem engine_independent A mA (SA : sim A mA) B mB (SB : sim B mB) prefix init qs :
-  plain_ok SA -> stamped_if_version SA -> plain_ok SB -> stamped_if_version SB -> Forall hist_ok qs ->
+   transcript and leave the same raw contents, on every sequential history whose written values both admit *)
+Theorem engine_independent (VP : bytes -> Prop) (HVP : forall v, v <> [] -> VP v) A mA (SA : sim A mA) B mB (SB : sim B mB) prefix init qs :
+  plain_ok VP SA -> stamped_if_version SA -> plain_ok VP SB -> stamped_if_version SB -> Forall (hist_ok VP) qs ->
   run_history A prefix init qs = run_history B prefix init qs.
 Proof.
   intros HA HA' HB HB' Hok.
-  rewrite (rel_run_history_all SA HA HA' prefix init qs Hok), (rel_run_history_all SB HB HB' prefix init qs Hok). reflexivity.
+  rewrite (rel_run_history_all VP HVP SA HA HA' prefix init qs Hok), (rel_run_history_all VP HVP SB HB HB' prefix init qs Hok).
+  reflexivity.
 Qed.
